@@ -83,12 +83,14 @@ void h_array(void)
     /* lengths 0..2 x 0..2 and (boolean arrays) every T/F mix of the elements run in CONSTANT loops: with a symbolic
      * length the type of an element slot is symbolic (element or not), the code's switch(type) then reaches the
      * array case and with it the eq/cmp recursion (no result in 100 s); payloads stay symbolic */
-#ifdef C16_LN      /* obligation split only (boolean x boolean arrays): left length fixed per obligation */
+#ifdef C16_LN      /* obligation split only (boolean x boolean arrays, 49 T/F mixes: symex time grows faster than
+                    * linearly with the number of iterations): lengths fixed per obligation */
     for(int ln = C16_LN; ln <= C16_LN; ln++)
+    for(int rn = C16_RN; rn <= C16_RN; rn++)
 #else
     for(int ln = 0; ln <= AMAX; ln++)
-#endif
     for(int rn = 0; rn <= AMAX; rn++)
+#endif
     for(unsigned lmix = 0; lmix < (LBOOL ? (1u << ln) : 1u); lmix++)
     for(unsigned rmix = 0; rmix < (RBOOL ? (1u << rn) : 1u); rmix++) {
         /* exact-size objects (ln, rn are constants here; a malloc'ed byte object would lose the constant types) */
